@@ -53,6 +53,17 @@ def _plain(v):
 
 
 # ---------------------------------------------------------------------------
+def scenarios_of(mod, tier):
+    """mod.scenarios(tier), optionally narrowed by VERIF_ONLY=<regex on the scenario description> (a debugging aid: the run
+    says so and its evidence goes to a scratch directory, never to /verif/evidence)."""
+    scns = mod.scenarios(tier)
+    only = os.environ.get('VERIF_ONLY')
+    if only:
+        import re
+        scns = [s for s in scns if re.search(only, json.dumps(s.describe(), sort_keys=True))]
+    return scns
+
+
 # worker side
 _MOD = None
 _SCN = None
@@ -62,7 +73,7 @@ def _init_worker(modname, tier):
     global _MOD, _SCN
     sys.setrecursionlimit(10000)
     _MOD = importlib.import_module(modname)
-    _SCN = _MOD.scenarios(tier)
+    _SCN = scenarios_of(_MOD, tier)
 
 
 def _safe_run(scn):
@@ -182,7 +193,7 @@ def run_explorer_property(mod, tier, seed, budget_s):
     canonical state, all bursts of <= bound deviations, and canonical digests deduplicate the frontier."""
     t0 = perf()
     modname = mod.__name__
-    scns = mod.scenarios(tier)
+    scns = scenarios_of(mod, tier)
     meta = {'scenarios': len(scns), 'nondeterministic_scenarios': []}
     deadline_wall = time.time() + budget_s
     total = X.Stats()
@@ -340,11 +351,11 @@ def replay_file(mod, path, tier='quick'):
     from vt import world  # noqa
     with open(path) as f:
         v = json.load(f)
-    scns = mod.scenarios(v.get('tier', tier))
+    scns = scenarios_of(mod, v.get('tier', tier))
     want = json.dumps(v['scenario'], sort_keys=True)
     scn = None
     for t in (v.get('tier', tier), 'thorough', 'quick'):
-        for s in mod.scenarios(t):
+        for s in scenarios_of(mod, t):
             if json.dumps(s.describe(), sort_keys=True) == want:
                 scn = s
                 break
